@@ -317,7 +317,16 @@ func FilterPMTPacketsToPids(packets []*packet.Packet, pids []int) ([]*packet.Pac
 	pmtPayload := pmtByteBuffer.Bytes()
 
 	// Determine if any of the given PIDs aren't in the PMT.
-	unfilteredPMT, _ := NewPMT(pmtPayload)
+	unfilteredPMT, err := NewPMT(pmtPayload)
+	if err != nil {
+		return nil, err
+	}
+	// the PMT section must be the first table and must be complete
+	if first := int(PointerField(pmtPayload)) + 1; len(pmtPayload) < first+programInfoLengthOffset+2 ||
+		len(pmtPayload) < first+3+int(sectionLength(pmtPayload[first:])) ||
+		first+programInfoLengthOffset+2+int(uint16(pmtPayload[first+programInfoLengthOffset]&0x0f)<<8|uint16(pmtPayload[first+programInfoLengthOffset+1])) > first+3+int(sectionLength(pmtPayload[first:])) {
+		return nil, gots.ErrPMTParse
+	}
 
 	pmtPid := packet.Pid(packets[0])
 	var missingPids []int
